@@ -25,8 +25,9 @@ func VerifDefaultEtcdSnapshotBucket(cluster *kafscalev1alpha1.KafscaleCluster) s
 
 // VerifDeployed runs the broker StatefulSet and headless Service reconcilers against a fake
 // API server and reports what was deployed: StatefulSet name, its governing service name,
-// replica count, and the name of the headless Service object that was created.
-func VerifDeployed(cluster *kafscalev1alpha1.KafscaleCluster) (stsName, stsService string, replicas int32, headless string, err error) {
+// replica count, the name of the headless Service object that was created, and the value of the
+// broker containers' KAFSCALE_BROKER_SERVICE environment variable ("" when absent).
+func VerifDeployed(cluster *kafscalev1alpha1.KafscaleCluster) (stsName, stsService string, replicas int32, headless, serviceEnv string, err error) {
 	scheme := runtime.NewScheme()
 	for _, add := range []func(*runtime.Scheme) error{kafscalev1alpha1.AddToScheme, appsv1.AddToScheme, corev1.AddToScheme, autoscalingv2.AddToScheme} {
 		if err = add(scheme); err != nil {
@@ -50,6 +51,13 @@ func VerifDeployed(cluster *kafscalev1alpha1.KafscaleCluster) (stsName, stsServi
 		stsName, stsService = s.Name, s.Spec.ServiceName
 		if s.Spec.Replicas != nil {
 			replicas = *s.Spec.Replicas
+		}
+		for _, ct := range s.Spec.Template.Spec.Containers {
+			for _, e := range ct.Env {
+				if e.Name == "KAFSCALE_BROKER_SERVICE" {
+					serviceEnv = e.Value
+				}
+			}
 		}
 	}
 	svc := &corev1.Service{}
